@@ -28,7 +28,7 @@ ASSUMPTIONS = [
     "broadcast delivery to a worker is deferred to its next in-iteration callback",
     "simulated workers are threads separated by pickle round trips",
 ]
-REAL_VS_STUB = "real: all of mici; stub: pool, queues, scheduler, SIGINT delivery (KeyboardInterrupt raised from a user callback), durability boundary"
+REAL_VS_STUB = "real: all of mici incl. _ignore_sigint_manager / _pool_context_manager; stub: multiprocessing.Pool and SyncManager classes (simulated workers, queues, scheduler), SIGINT delivery (KeyboardInterrupt raised from a user callback, dropped when the target process ignores SIGINT: parent = real disposition, workers inherit at pool creation), durability boundary"
 WALL_CAP_S = {"quick": 400, "thorough": 3300}
 MIN_EVALUATIONS = {"quick": 300, "thorough": 3000}
 N = {"quick": 48, "thorough": 1600}
@@ -73,6 +73,13 @@ def judge_interrupted(R, I, k):
     v = []
     scn = I.scn
     fired = I.log.interrupt_fired
+    dropped = getattr(I.log, "interrupt_dropped", [])
+    if dropped:
+        # the operating-system model: a SIGINT aimed at a process whose disposition is "ignore" never arrives
+        who = sorted({d[0] for d in dropped})
+        return [violation("interrupt-ignored", f"{PROP} interrupt-ignored:{'parent' if any(w == 'MainThread' or w.startswith('main') for w in who) else 'worker'}",
+                          f"crash point {k} ({dropped[0][2]}): the interrupt aimed at {who} was dropped because sample_chains had set that process's SIGINT "
+                          f"disposition to 'ignore' (left ignoring after the call: {getattr(I, 'sigint_left_ignored', None)}); sampling cannot be interrupted", k=k)]
     if not fired:
         return [violation("harness", f"{PROP} harness-interrupt-not-fired", f"crash point {k} never fired")]
     if I.outcome != "returned":
